@@ -388,3 +388,18 @@ class ExcV(AVal):
 
     def __repr__(self):
         return f'<exc {self.cls_name()}>'
+
+
+class GenCallV(AVal):
+    """A generator function called but not started: its body runs when a for-loop consumes it."""
+    def __init__(self, fi, args, kwargs, self_obj=None, cls_obj=None, closure=None):
+        self.fi = fi
+        self.args = list(args)
+        self.kwargs = dict(kwargs)
+        self.self_obj = self_obj
+        self.cls_obj = cls_obj
+        self.closure = closure
+        self.started = False
+
+    def __repr__(self):
+        return f'<generator {self.fi.short}>'
